@@ -1,11 +1,12 @@
 (* C04 Exec: the checkers evaluated by vm_compute on every correspondence case.
    Four kinds of case: parser histories (api/token), JWT gate histories and signed requests
    (api/handler), RPC authenticator histories (rpc/internal/auth). Crypto oracles come as the
-   finite tables the drivers computed with the real libraries. *)
+   finite tables the drivers computed with the real libraries.
+   Nothing here (nor in Model/Spec/Proofs) depends on the regenerated module GodGen.C04_Gen: the numbers and
+   strings are written out by hand and Link.v proves them equal to the regenerated ones. *)
 From God Require Import Base.Prelude.
 From God Require Export C04.Model C04.Spec.
 From Coq Require Import String Ascii.
-From GodGen Require C04_Gen.
 Local Open Scope Z_scope.
 
 Fixpoint all2 {A B} (f : A -> B -> bool) (l1 : list A) (l2 : list B) : bool :=
@@ -74,7 +75,7 @@ Fixpoint parser_rows (t : jtable) (secret prev : N) (p : pstate) (rows : list pr
   end.
 
 Definition parser_model_ok (c : parser_case) : bool :=
-  (if pc_default_dur c then pc_reset_dur c =? C04_Gen.claimHistoryResetDuration else true) &&
+  (if pc_default_dur c then pc_reset_dur c =? claim_history_reset_duration else true) &&
   parser_rows (pc_table c) (pc_secret c) (pc_prev c) (new_parser (pc_reset_time c) (pc_reset_dur c)) (pc_rows c).
 
 (* Spec on observations: ParseToken succeeds iff the library accepts under the current or the
@@ -104,7 +105,7 @@ Definition jout_eqb (o : jout) (r : jrow) : bool :=
 
 Definition jwt_model_ok (c : jwt_case) : bool :=
   let reqs := map (fun r => (jr_now r, jr_jt r, jr_tok r)) (jc_rows c) in
-  let p0 := new_parser (jc_start c) C04_Gen.claimHistoryResetDuration in
+  let p0 := new_parser (jc_start c) claim_history_reset_duration in
   all2 jout_eqb (snd (run_jwt (jwt_of (jc_table c)) (jc_cb c) p0 (jc_secret c) (jc_prev c) reqs)) (jc_rows c).
 
 Definition jwt_spec_ok (c : jwt_case) : bool :=
@@ -355,7 +356,7 @@ Fixpoint ejwt_rows (t : jtable) (groups : list jwt_opt) (states : list pstate) (
 
 Definition ejwt_model_ok (c : ejwt_case) : bool :=
   list_eqb Bool.eqb (ej_panics c) (map (fun o => match jwt_setting o with None => true | Some _ => false end) (ej_groups c)) &&
-  ejwt_rows (ej_table c) (ej_groups c) (map (fun _ => new_parser 0 C04_Gen.claimHistoryResetDuration) (ej_groups c)) (ej_rows c).
+  ejwt_rows (ej_table c) (ej_groups c) (map (fun _ => new_parser 0 claim_history_reset_duration) (ej_groups c)) (ej_rows c).
 
 (* Spec: a JWT-protected group runs its handler iff the token verifies under the group's current secret, or under its
    (non-empty, arbitrarily short) previous secret; an unprotected group always runs it *)
